@@ -1254,8 +1254,8 @@ Qed.
 Lemma r2_no_lt (x : str) : ~ In 60 x -> r2 x = x.
 Proof.
   apply sub_scan_no_match. intros c r Hc. unfold r2_match.
-  destruct c as [|p]; [reflexivity|].
-  do 6 (destruct p as [p|p|]; try reflexivity). congruence.
+  destruct r as [|a [|b t]]; try reflexivity.
+  apply N.eqb_neq in Hc. rewrite Hc. reflexivity.
 Qed.
 
 Lemma r0_no_lt (x : str) : ~ In 60 x -> r0 x = x.
